@@ -47,3 +47,143 @@ Proof.
   split; [vm_compute; reflexivity|]. split; [vm_compute; reflexivity|]. split; [vm_compute; reflexivity|].
   repeat constructor; simpl; try lia; try reflexivity; [exists 0|exists 6|exists 3]; reflexivity.
 Qed.
+
+(* ------------------------------------------------------------------------------------------------------------------
+   Command-buffer storage (TemporalStorage::allocate / clear, temporal_storage.cpp): the bump allocator that holds the
+   components assigned while the entity manager is locked.  Model: TempStore.v; proofs: proofs/TempStoreProofs.v.
+   Quantifiers: EVERY sequence of allocate()/clear() calls from the initial state, every size >= 0, every alignment >= 1
+   (not only powers of two: the C++ uses %), every address new[] may return (no alignment of a chunk base is assumed).
+   Arithmetic is unbounded N; it coincides with the uint32_t/uintptr_t arithmetic of the C++ while size + align and
+   total_size_ + size + align stay below 2^32 (no intermediate value wraps; the one subtraction that could underflow is
+   C10_temp_no_underflow).  Results are read off ts_run, the function the correspondence driver replays. *)
+From Mustache Require Import TempStore.
+From Mustache.proofs Require Import TempStoreProofs.
+
+(* 1. every returned address is a multiple of the requested alignment *)
+Theorem C10_temp_aligned : forall ops k s a b i off addr,
+  nth_error ops k = Some (TAlloc s a b) -> nth_error (ts_run ops ts_init) k = Some (RAlloc i off addr) ->
+  1 <= a -> addr mod a = 0.
+Proof. exact ts_aligned. Qed.
+Print Assumptions C10_temp_aligned.
+
+(* 2. the block [addr, addr + s) lies inside the chunk it was taken from (chunk number i of the state right after the
+   call, which is the last chunk of the vector), at the reported offset *)
+Theorem C10_temp_in_bounds : forall ops k s a b i off addr,
+  nth_error ops k = Some (TAlloc s a b) -> nth_error (ts_run ops ts_init) k = Some (RAlloc i off addr) ->
+  let st' := ts_exec (firstn (S k) ops) ts_init in
+  exists c, nth_error (t_chunks st') i = Some c /\ S i = length (t_chunks st') /\
+            addr = c_base c + off /\ c_base c <= addr /\ off + s <= c_cap c /\ addr + s <= c_base c + c_cap c.
+Proof. exact ts_in_bounds. Qed.
+Print Assumptions C10_temp_in_bounds.
+
+(* 3. two blocks of positive size handed out with no clear() in between never overlap -- provided each chunk that
+   new[] returns is disjoint from the chunks held at that moment (ts_bases_ok, an executable check on the `base`
+   arguments; nothing else is assumed about them) *)
+Theorem C10_temp_no_overlap : forall pre mid post s1 a1 b1 s2 a2 b2,
+  let ops := pre ++ TAlloc s1 a1 b1 :: mid ++ TAlloc s2 a2 b2 :: post in
+  ts_bases_ok ops ts_init = true -> ~ In TClear mid ->
+  forall i1 o1 ad1 i2 o2 ad2,
+    nth_error (ts_run ops ts_init) (length pre) = Some (RAlloc i1 o1 ad1) ->
+    nth_error (ts_run ops ts_init) (length pre + 1 + length mid) = Some (RAlloc i2 o2 ad2) ->
+    0 < s1 -> 0 < s2 -> ad1 + s1 <= ad2 \/ ad2 + s2 <= ad1.
+Proof. exact ts_no_overlap. Qed.
+Print Assumptions C10_temp_no_overlap.
+
+(* the same, pairwise over all blocks handed out since the last clear() (ts_live, newest first) *)
+Theorem C10_temp_live_disjoint : forall ops,
+  ts_bases_ok ops ts_init = true -> ForallOrdPairs ev_disj (ts_live ops).
+Proof. exact ts_live_disjoint. Qed.
+Print Assumptions C10_temp_live_disjoint.
+
+(* 4. free_space <= capacity in every chunk; total_size_ = sum of (size + padding) over the blocks handed out since the
+   last clear(); every such block lies in the used part [base, base + capacity - free_space) of its chunk *)
+Theorem C10_temp_accounting : forall ops,
+  let st := ts_exec ops ts_init in
+  Forall (fun c => c_free c <= c_cap c) (t_chunks st) /\
+  t_total st = ev_sum (ts_live ops) /\
+  Forall (fun e => exists c, nth_error (t_chunks st) (e_idx e) = Some c /\ c_base c <= e_addr e /\
+                             e_addr e + e_size e <= c_base c + (c_cap c - c_free c)) (ts_live ops).
+Proof. exact ts_accounting. Qed.
+Print Assumptions C10_temp_accounting.
+
+(* `chunk.free_space -= size + padding` never underflows, from any state *)
+Theorem C10_temp_no_underflow : forall st s a b, s + ts_pad st s a b <= c_free (ts_chosen st s a b).
+Proof. exact ts_alloc_fits. Qed.
+Print Assumptions C10_temp_no_underflow.
+
+(* clear() with exactly one chunk: the chunk is kept and empty again, target := total, total := 0, and the next block
+   that fits is carved at its base (plus the padding the base itself needs; none if the base is aligned) *)
+Theorem C10_temp_clear_one_restart : forall ops c s a b,
+  let st := ts_exec ops ts_init in
+  t_chunks st = [c] -> ts_max_size s a <= c_cap c ->
+  t_chunks (ts_clear st) = [{| c_base := c_base c; c_cap := c_cap c; c_free := c_cap c |}] /\
+  t_target (ts_clear st) = t_total st /\ t_total (ts_clear st) = 0 /\
+  exists pad, pad = ts_padding (c_base c) a /\ (1 <= a -> pad < a) /\ (c_base c mod a = 0 -> pad = 0) /\
+    nth_error (ts_run (ops ++ [TClear; TAlloc s a b]) ts_init) (S (length ops)) = Some (RAlloc 0 pad (c_base c + pad)).
+Proof. exact ts_clear_one_restart. Qed.
+Print Assumptions C10_temp_clear_one_restart.
+
+(* A mixed run.  Chunk bases 65552, 131088, 262160, 200016 are all = 16 (mod 64): aligned for fundamental types only.
+   calls 0-2 fill chunk 0; call 3 (4096 bytes aligned to 64) spills into a second chunk of 4096 + 63 bytes and is
+   padded by 48; call 4 spills into a third; call 5 clears with three chunks (all dropped, target = 4208 = bytes used);
+   calls 6-7 use a fresh chunk of 4208 bytes; call 8 clears with one chunk (kept); calls 9-11 restart at its base
+   (call 10 has size 0, call 11 a non-power-of-two alignment). *)
+Definition C10_temp_mixed : list top :=
+  [TAlloc 1 1 65552; TAlloc 8 8 0; TAlloc 24 32 0; TAlloc 4096 64 131088; TAlloc 24 32 262160; TClear;
+   TAlloc 24 32 200016; TAlloc 1 1 0; TClear; TAlloc 8 8 0; TAlloc 0 64 0; TAlloc 8 3 0].
+
+Example C10_temp_example_run :
+  ts_run C10_temp_mixed ts_init =
+  [RAlloc 0 0 65552; RAlloc 0 8 65560; RAlloc 0 16 65568; RAlloc 1 48 131136; RAlloc 2 16 262176; RClear;
+   RAlloc 0 16 200032; RAlloc 0 40 200056; RClear; RAlloc 0 0 200016; RAlloc 0 48 200064; RAlloc 0 48 200064].
+Proof. vm_compute. reflexivity. Qed.
+
+Example C10_temp_example_states :
+  ts_exec (firstn 5 C10_temp_mixed) ts_init =
+    {| t_chunks := [{| c_base := 65552; c_cap := 4096; c_free := 4056 |};
+                    {| c_base := 131088; c_cap := 4159; c_free := 15 |};
+                    {| c_base := 262160; c_cap := 4159; c_free := 4119 |}];
+       t_target := 4159; t_total := 4224 |} /\
+  ts_exec (firstn 6 C10_temp_mixed) ts_init = {| t_chunks := []; t_target := 4224; t_total := 0 |} /\
+  ts_exec (firstn 8 C10_temp_mixed) ts_init =
+    {| t_chunks := [{| c_base := 200016; c_cap := 4224; c_free := 4183 |}]; t_target := 4224; t_total := 41 |} /\
+  ts_exec (firstn 9 C10_temp_mixed) ts_init =
+    {| t_chunks := [{| c_base := 200016; c_cap := 4224; c_free := 4224 |}]; t_target := 41; t_total := 0 |} /\
+  ts_exec C10_temp_mixed ts_init =
+    {| t_chunks := [{| c_base := 200016; c_cap := 4224; c_free := 4168 |}]; t_target := 41; t_total := 56 |}.
+Proof. vm_compute. repeat split; reflexivity. Qed.
+
+(* the hypotheses of the theorems above are satisfiable on this run: the bases are acceptable (C10_temp_no_overlap with
+   pre = 1 call, mid = 2 calls without clear: blocks 1 and 3 live in different chunks; C10_temp_live_disjoint), calls 3
+   and 11 are allocations with alignment >= 1 (C10_temp_aligned, C10_temp_in_bounds), and after 8 calls exactly one
+   chunk is held and a block of 8 bytes aligned to 8 fits (C10_temp_clear_one_restart) *)
+Example C10_temp_example_hyps :
+  ts_bases_ok C10_temp_mixed ts_init = true /\
+  C10_temp_mixed = [TAlloc 1 1 65552] ++ TAlloc 8 8 0 :: [TAlloc 24 32 0] ++ TAlloc 4096 64 131088 ::
+                   [TAlloc 24 32 262160; TClear; TAlloc 24 32 200016; TAlloc 1 1 0; TClear; TAlloc 8 8 0;
+                    TAlloc 0 64 0; TAlloc 8 3 0] /\
+  ~ In TClear [TAlloc 24 32 0] /\
+  nth_error C10_temp_mixed 3 = Some (TAlloc 4096 64 131088) /\
+  nth_error (ts_run C10_temp_mixed ts_init) 3 = Some (RAlloc 1 48 131136) /\ 131136 mod 64 = 0 /\
+  nth_error C10_temp_mixed 11 = Some (TAlloc 8 3 0) /\
+  nth_error (ts_run C10_temp_mixed ts_init) 11 = Some (RAlloc 0 48 200064) /\ 200064 mod 3 = 0 /\
+  t_chunks (ts_exec (firstn 8 C10_temp_mixed) ts_init) = [{| c_base := 200016; c_cap := 4224; c_free := 4183 |}] /\
+  ts_max_size 8 8 <= 4224 /\
+  ts_live (firstn 5 C10_temp_mixed) =
+    [{| e_idx := 2; e_addr := 262176; e_size := 24; e_pad := 16 |};
+     {| e_idx := 1; e_addr := 131136; e_size := 4096; e_pad := 48 |};
+     {| e_idx := 0; e_addr := 65568; e_size := 24; e_pad := 0 |};
+     {| e_idx := 0; e_addr := 65560; e_size := 8; e_pad := 7 |};
+     {| e_idx := 0; e_addr := 65552; e_size := 1; e_pad := 0 |}].
+Proof.
+  split; [vm_compute; reflexivity|]. split; [reflexivity|].
+  split; [intros [H|[]]; discriminate H|].
+  repeat (split; [vm_compute; reflexivity|]). split; [vm_compute; discriminate|]. vm_compute. reflexivity.
+Qed.
+
+(* the hypothesis on the bases is needed: if new[] returned a second chunk INSIDE the first one (which a correct
+   allocator never does), ts_bases_ok rejects the run and the blocks do overlap *)
+Example C10_temp_bases_needed :
+  ts_bases_ok [TAlloc 4096 1 1000; TAlloc 8 1 1004] ts_init = false /\
+  ts_run [TAlloc 4096 1 1000; TAlloc 8 1 1004] ts_init = [RAlloc 0 0 1000; RAlloc 1 0 1004].
+Proof. vm_compute. split; reflexivity. Qed.
